@@ -1,5 +1,6 @@
 import SV.Common
 import SV.LRU.Model
+import SV.LRU.SimpleLruLib
 open SV SV.LRU
 
 namespace Drv.LRU
@@ -7,6 +8,9 @@ namespace Drv.LRU
 structure St where
   v : Variant := Variant.current
   c : Cache := ⟨.plain ⟨1, []⟩, []⟩
+  /-- plain kind: the transcription of hashicorp's `simplelru` (SV/LRU/SimpleLruLib.lean, proved to refine the plain-LRU model
+      and the reference) is what answers; `c` then only carries the handler registry -/
+  lib : Option Lib.LRU := none
 
 def kvGet (toks : List String) (k : String) : Option String :=
   toks.findSome? fun t =>
@@ -17,7 +21,9 @@ def kvGet (toks : List String) (k : String) : Option String :=
 def natOf (s : Option String) : Nat := (s.bind String.toNat?).getD 0
 
 def dump (st : St) : String :=
-  s!"keys={hexList st.c.keys} len={st.c.len} bytes={st.c.sizeInBytes}"
+  match st.lib with
+  | some l => s!"keys={hexList l.keys} len={l.len} bytes=0"
+  | none => s!"keys={hexList st.c.keys} len={st.c.len} bytes={st.c.sizeInBytes}"
 
 /-- handler invocations, canonicalised: sorted by id -/
 def showInv (l : List (String × Bytes × Bytes)) : String :=
@@ -34,11 +40,28 @@ def step (st : St) (toks : List String) : St × String :=
     let cap := natOf (kvGet rest "cap")
     if kvGet rest "kind" = some "sized" then
       ({ v := v, c := ⟨.sized (Cap.init cap (natOf (kvGet rest "bytes"))), []⟩ }, "ok")
-    else ({ v := v, c := ⟨.plain ⟨cap, []⟩, []⟩ }, "ok")
+    else ({ v := v, c := ⟨.plain ⟨cap, []⟩, []⟩, lib := some (Lib.LRU.new cap) }, "ok")
   | [op, k, p, sz] =>
     match parseHex k, parseHex p, sz.toInt? with
     | some k, some p, some sz =>
-      if op = "put" then
+      if op = "put" && st.lib.isSome then
+        match st.lib with
+        | some l =>
+          let (l', out) := l.stepL (.put k p sz)
+          let st := { st with lib := some l' }
+          (st, (match out with | .evicted ev => boolStr ev | _ => "?") ++ " | " ++ dump st ++ " | " ++ showInv (st.c.notify k p))
+        | none => (st, "bad-op")
+      else if op = "hoa" && st.lib.isSome then
+        match st.lib with
+        | some l =>
+          let (l', out) := l.stepL (.hoa k p sz)
+          let st := { st with lib := some l' }
+          match out with
+          | .hasAdded has added =>
+            (st, boolStr has ++ " " ++ boolStr added ++ " | " ++ dump st ++ " | " ++ showInv (if added then st.c.notify k p else []))
+          | _ => (st, "?")
+        | none => (st, "bad-op")
+      else if op = "put" then
         let (c, ev, inv) := st.c.put st.v k p sz
         let st := { st with c := c }
         (st, boolStr ev ++ " | " ++ dump st ++ " | " ++ showInv inv)
@@ -52,8 +75,19 @@ def step (st : St) (toks : List String) : St × String :=
     if op = "reg" then let st := { st with c := st.c.register k }; (st, "ok")
     else if op = "unreg" then let st := { st with c := st.c.unregister k }; (st, "ok")
     else
-    match parseHex k with
-    | some k =>
+    match parseHex k, st.lib with
+    | some k, some l =>
+      if op = "get" then
+        let (l', out) := l.stepL (.get k)
+        let st := { st with lib := some l' }
+        (st, (match out with | .value r => optHex r | _ => "?") ++ " | " ++ dump st)
+      else if op = "peek" then (st, optHex (l.peek k) ++ " | " ++ dump st)
+      else if op = "has" then (st, boolStr (l.contains k) ++ " | " ++ dump st)
+      else if op = "rm" then
+        let st := { st with lib := some (l.stepL (.rm k)).1 }
+        (st, "| " ++ dump st)
+      else (st, "bad-op")
+    | some k, none =>
       if op = "get" then
         let (c, r) := st.c.get k
         let st := { st with c := c }
@@ -64,9 +98,11 @@ def step (st : St) (toks : List String) : St × String :=
         let st := { st with c := st.c.remove k }
         (st, "| " ++ dump st)
       else (st, "bad-op")
-    | none => (st, "bad-op")
+    | none, _ => (st, "bad-op")
   | ["clear"] =>
-    let st := { st with c := st.c.clear }
+    let st := match st.lib with
+      | some l => { st with lib := some (l.stepL .clear).1 }
+      | none => { st with c := st.c.clear }
     (st, "| " ++ dump st)
   | _ => (st, "bad-op")
 
